@@ -16,6 +16,7 @@ CHECKS["C12"] = {
         J("runners", "c12", "TestRunners", 600, 20000, 4),
         J("loaders", "c12", "TestLoaders", 600, 20000, 2),
         J("postprocessors", "c12", "TestPostProcessors", 500, 15000, 4),
+        J("loaders-reinit", "c12", "TestLoadersReinit", 800, 20000, 2),
     ],
     "assumptions": [
         "the contract does not require stability: equal Orders may appear in any relative order",
@@ -72,6 +73,7 @@ CHECKS["C07"] = {
     "jobs": [
         J("byname", "c07", "TestByName", 4000, 100000, 12),
         J("duplicates", "c07", "TestDuplicateNames", 500, 5000, 1),
+        J("namedcreationfails", "c07", "TestNamedCreationFails", 300, 3000, 1),
     ],
     "assumptions": [
         "named points are generated on single-valued fields only (the property speaks about single-valued points)",
@@ -178,6 +180,7 @@ CHECKS["C11"] = {
     "jobs": [
         J("embedding", "c11", "TestEmbedding", 3000, 80000, 8),
         J("static", "c11", "TestStaticUnexportedEmbedding", None, None),
+        J("diamond", "c11", "TestStaticDiamondEmbedding", None, None),
     ],
     "assumptions": [
         "run-time built structs (reflect.StructOf) can only embed under an exported field name; embedded types with unexported names are covered by static fixtures",
